@@ -716,6 +716,9 @@ class Machine:
             return ('closure', rhs)
         if rhs == '()':
             return ('unit',)
+        if rhs.startswith('[') and rhs.endswith(']') and ';' not in rhs:
+            # fixed-size array literal [a, b, ...]: a value list (only iterated by value through the list-iterator models)
+            return ('adt', 'array', 0, [self.operand(st, fid, a) for a in split_top(rhs[1:-1])])
         if rhs.startswith('(') and rhs.endswith(')'):
             return ('adt', 'tuple', 0, [self.operand(st, fid, a) for a in split_top(rhs[1:-1])])
         m = re.match(r'([\w:<>, ()&\'\[\];]+?)::(\w+)\((.*)\)$', rhs)
